@@ -143,6 +143,15 @@ def gen_cases(rng: Rng, tier):
             spike[j] = rs(rng.dyadic(1, 8, 2))
             other = [rs(abs(rng.dyadic(-2, 2, 2))) for _ in tg]
             yield dict(kind="trapz", t=tg, y=spike, y2=other, a=rs(rng.dyadic(-4, 4, 2)), b=rs(rng.dyadic(-4, 4, 2)), ck="spike")
+    # generated tensor-product bases in 2-D whose marginals differ (family, number of functions, grid): the Gram matrix of
+    # the basis factorises over the product grid in the order of the functions
+    for (f1, k1), (f2, k2) in [(("fourier", 3), ("legendre", 2)), (("legendre", 2), ("bsplines", 5)), (("wiener", 2), ("fourier", 3)),
+                               (("bsplines", 6), ("wiener", 3))]:
+        N = rng.randint(2, 4)
+        yield dict(kind="basis2d", families=[f1, f2], Ks=[k1, k2],
+                   t1=[rs(x) for x in rng.grid(rng.choice([7, 9, 11]), lo=rng.choice([0, -1]), scale=rng.choice([1, 2]), uniform=True)],
+                   t2=[rs(x) for x in rng.grid(rng.choice([8, 10, 13]), lo=rng.choice([0, 2]), scale=rng.choice([1, 3]), uniform=True)],
+                   C=[[rs(x) for x in r] for r in _curves0(rng, N, k1 * k2, "rand")[0]], ck="rand")
     # grids far from the origin relative to their step (time stamps in seconds sampled at 1 kHz, Julian dates, large
     # offsets): all exact floats; weights and integrals must not lose the ratio |t|/step
     for lo, step in [(1700000000, Fraction(1, 2**10)), (1700000000, Fraction(1, 2**22)), (2460000, Fraction(1, 2**31)),
@@ -433,6 +442,29 @@ def run_impl(case):
         except ModuleNotFoundError:
             # Gram matrix of the basis failed the Cholesky test; the fallback needs statsmodels (absent)
             out["error"] = "cholesky-fallback"
+    elif kind == "basis2d":
+        from FDApy.representation.argvals import DenseArgvals
+        from FDApy.representation.basis import Basis
+        from FDApy.representation.functional_data import BasisFunctionalData
+
+        t1, t2 = np.array(fl(_Fv(case["t1"]))), np.array(fl(_Fv(case["t2"])))
+        C = np.array(fl(_Fm(case["C"])))
+        try:
+            basis = Basis(name=tuple(case["families"]), n_functions=tuple(case["Ks"]),
+                          argvals=DenseArgvals({"input_dim_0": t1, "input_dim_1": t2}))
+            marg = [Basis(name=f, n_functions=k, argvals=DenseArgvals({"input_dim_0": t}))
+                    for f, k, t in zip(case["families"], case["Ks"], (t1, t2))]
+            out["B"] = np.asarray(basis.values).reshape(len(basis.values), -1).tolist()
+            out["BG"] = np.asarray(basis.inner_product()).tolist()
+            out["BG_marg"] = [np.asarray(b.inner_product()).tolist() for b in marg]
+            bfd = BasisFunctionalData(basis, C)
+            out["nsq"] = np.asarray(bfd.norm(squared=True)).tolist()
+            out["G"] = np.asarray(bfd.inner_product()).tolist()
+            grid = bfd.to_grid()
+            out["grid_nsq"] = grid.norm(squared=True).tolist()
+            out["grid_ip"] = [[float(_inner_product(grid.values[i], grid.values[j], t1, t2)) for j in range(len(C))] for i in range(len(C))]
+        except ModuleNotFoundError:
+            out["error"] = "cholesky-fallback"
     return out
 
 
@@ -493,6 +525,13 @@ def model_lines(case, impl):
         C = _Fm(case["C"])
         X = [[sum(c[k] * B[k][j] for k in range(len(B))) for j in range(len(B[0]))] for c in C]
         return [f"normsq {J(case['t'])} {mat(X)}", f"coefgram {J(case['t'])} {mat(B)} {M(case['C'])}"]
+    if kind == "basis2d":
+        if "error" in impl or "__crash__" in impl or not np.all(np.isfinite(np.array(impl["B"], dtype=float))):
+            return []
+        B = [[F(x) for x in r] for r in impl["B"]]   # the tensor-product basis FDApy evaluated (flattened), as exact rationals
+        C = _Fm(case["C"])
+        X = [[sum(c[k] * B[k][j] for k in range(len(B))) for j in range(len(B[0]))] for c in C]
+        return [f"ip2d {J(case['t1'])} {J(case['t2'])} {mat(B)}", f"ip2d {J(case['t1'])} {J(case['t2'])} {mat(X)}"]
     return []
 
 
@@ -630,6 +669,21 @@ def compare(case, impl, model):
         sc = max([abs(float(x)) for r in Q for x in r] + [1e-300])
         for i, (gr, qr) in enumerate(zip(impl["G"], Q)):
             ds += _cmp_vec(f"coefficient Gram[{i}]", gr, qr, sc + 1.0 + slack, 1e-8)
+    elif kind == "basis2d":
+        if "error" in impl or not model.get("outs"):
+            return []
+        QB, QX = pmat(model["outs"][0]), pmat(model["outs"][1])
+        scb = max([abs(float(x)) for r in QB for x in r] + [1e-300])
+        for i, (gr, qr) in enumerate(zip(impl["BG"], QB)):
+            # Basis.inner_product zeroes entries below 1e-12 (absolute, by design)
+            ds += _cmp_vec(f"Gram of the tensor-product basis[{i}]", gr, qr, scb + 1e-3, 1e-9)
+        l1 = max(sum(abs(float(F(x))) for x in r) for r in case["C"])
+        slack = 1e-3 * l1 * l1
+        scx = max([abs(float(x)) for r in QX for x in r] + [1e-300])
+        for i, (gr, qr) in enumerate(zip(impl["G"], QX)):
+            ds += _cmp_vec(f"coefficient Gram (2-D basis)[{i}]", gr, qr, scx + slack, 1e-8)
+        ds += _cmp_vec("2-D basis normsq", impl["nsq"], [QX[i][i] for i in range(len(QX))], scx + slack, 1e-8)
+        ds += _cmp_vec("2-D grid normsq", impl["grid_nsq"], [QX[i][i] for i in range(len(QX))], scx, 1e-9)
     return ds
 
 
@@ -731,6 +785,29 @@ def oracle(case, impl):
             bad("symmetric", "coefficient-space Gram matrix not symmetric", "BasisFunctionalData.inner_product")
         if np.linalg.eigvalsh((G + G.T) / 2).min() < -1e-8 * sc:
             bad("psd", "coefficient-space Gram matrix not PSD", "BasisFunctionalData.inner_product")
+    elif kind == "basis2d" and "error" not in impl and np.all(np.isfinite(np.array(impl["G"], dtype=float))):
+        G, BG = np.array(impl["G"], dtype=float), np.array(impl["BG"], dtype=float)
+        l1 = max(sum(abs(float(F(x))) for x in r) for r in case["C"])
+        sc = max(np.abs(G).max(), 1e-300) + 1e-3 * l1 * l1
+        fam = "x".join(case["families"])
+        K = np.kron(np.array(impl["BG_marg"][0], dtype=float), np.array(impl["BG_marg"][1], dtype=float))
+        if BG.shape != K.shape or not np.allclose(BG, K, rtol=1e-7, atol=1e-9 * max(np.abs(K).max(), 1.0) + 2e-12):
+            bad("factorises", f"the Gram matrix of the tensor-product basis {fam} is not the product of the marginal inner products "
+                "<phi_a, phi_c><psi_b, psi_d> in the order of the functions", "Basis.inner_product")
+        if not np.allclose(np.diag(G), impl["grid_nsq"], rtol=1e-7, atol=1e-9 * sc):
+            bad("basis_norm", f"squared norms from the coefficients differ from those of the evaluated surfaces ({fam})", "BasisFunctionalData.inner_product")
+        if not np.allclose(impl["nsq"], impl["grid_nsq"], rtol=1e-7, atol=1e-9 * sc):
+            bad("basis_norm", f"BasisFunctionalData.norm differs from the norm of the evaluated surfaces ({fam})", "BasisFunctionalData.norm")
+        if not np.allclose(G, np.array(impl["grid_ip"]), rtol=1e-7, atol=1e-9 * sc + 1e-10):
+            bad("basis_inner_product", f"coefficient-space Gram matrix differs from the inner products of the evaluated surfaces ({fam})",
+                "BasisFunctionalData.inner_product")
+        if not np.allclose(G, G.T, rtol=0, atol=1e-9 * sc):
+            bad("symmetric", "coefficient-space Gram matrix not symmetric", "BasisFunctionalData.inner_product")
+        if np.linalg.eigvalsh((G + G.T) / 2).min() < -1e-8 * sc:
+            bad("psd", "coefficient-space Gram matrix not PSD", "BasisFunctionalData.inner_product")
+        d, o = np.sqrt(np.abs(np.diag(G))), np.abs(G)
+        if (o > np.outer(d, d) * (1 + 1e-7) + 1e-9 * sc).any():
+            bad("cauchy_schwarz", "|<x_i, x_j>| exceeds |x_i| |x_j| for basis-expansion data on a 2-D basis", "BasisFunctionalData.inner_product")
     elif kind == "gram_seq":
         # the last step is inner_product(noise_variance=0): must be a Gram matrix of the CURRENT values
         G = np.array(impl["res"][-1], dtype=float)
